@@ -26,26 +26,13 @@ theorem C10_safe_wf (c cu : Cfg) (hc : CfgOK c) (hcu : CfgOK cu) (w : World) (hw
     (∃ w' o, step c cu w op = .ok (w', o) ∧ WFW c cu w') ∨ (∃ e, step c cu w op = .throw e ∧ MayThrow op) :=
   step_safe hc hcu hw op ha
 
-/-- the caller-side contract holds at every step of a history -/
-def HistOK (c cu : Cfg) : World → List Op → Prop
-  | _, [] => True
-  | w, op :: ops =>
-    ArgsOK c w op ∧
-      (∀ p, step c cu w op = .ok p → HistOK c cu p.1 ops) ∧ (∀ e, step c cu w op = .throw e → HistOK c cu w ops)
-
 /-- Histories.  Every sequence of operations of any length, started in a well-formed state, runs to its end
-    without an out-of-bounds access and ends in a well-formed state (induction over the history). -/
+    without an out-of-bounds access and ends in a well-formed state (induction over the history; `HistOK`:
+    the caller-side contract `ArgsOK` holds at every step; an exception thrown by `at()` leaves the objects
+    unchanged and the history continues). -/
 theorem C10_history (c cu : Cfg) (hc : CfgOK c) (hcu : CfgOK cu) (ops : List Op) :
-    ∀ w, WFW c cu w → HistOK c cu w ops → ∃ w', run c cu w ops = .ok w' ∧ WFW c cu w' := by
-  induction ops with
-  | nil => intro w hw _; exact ⟨w, rfl, hw⟩
-  | cons op ops ih =>
-    intro w hw hh
-    obtain ⟨ha, hok, hthrow⟩ := hh
-    unfold run
-    rcases step_safe hc hcu hw op ha with ⟨w', o, h1, h2⟩ | ⟨e, h1, _⟩
-    · rw [h1]; exact ih w' h2 (hok _ h1)
-    · rw [h1]; exact ih w hw (hthrow _ h1)
+    ∀ w, WFW c cu w → HistOK c cu w ops → ∃ w', run c cu w ops = .ok w' ∧ WFW c cu w' :=
+  run_wf hc hcu ops
 
 /-- the three default-constructed objects are well-formed, so histories may start there -/
 theorem C10_init (c cu : Cfg) : WFW c cu (World.init c cu) :=
